@@ -31,22 +31,22 @@ Definition x_id : machine Z Z := Machine (tt, [CSub 0%nat], Cont) (fun s _ i => 
 (* ---- observable/using.py ---------------------------------------------------
    subscribe(): disp = Disposable(); try: resource = resource_factory(); if
    resource is not None: disp = resource; source = observable_factory(resource)
-   except Exception: d = throw(exception).subscribe(observer, scheduler=scheduler);
-   return CompositeDisposable(d, disp).  Otherwise
+   except Exception: observer.on_error(exception); return disp.  Otherwise
    CompositeDisposable(source.subscribe(observer, scheduler=scheduler), disp).
    The composite is disposed by the subscriber's auto-detaching wrapper at the
    terminal notification, or by the subscriber: that is when the resource's
-   dispose() runs.  throw() delivers on_error through `scheduler or
-   ImmediateScheduler`: inside subscribe() when no scheduler was passed
-   ([sched] = false), as timer 0 with delay 0 otherwise.
+   dispose() runs.
    rf: Ok true = a disposable resource, Ok false = None; state: (resource held,
    exception waiting for the throw timer). *)
 Definition released (has : bool) : list (cmd Z) := if has then [CEffect E_RELEASED] else [].
 Definition created (has : bool) : list (cmd Z) := if has then [CEffect E_CREATED] else [].
 
+(* since /repo's fix of using (a factory's exception is handed to the observer inside subscribe(), as defer
+   does, instead of being subscribed as throw() on the subscribe-time scheduler) the failure no longer depends on
+   [sched]: the parameter and the [pend] component of the state are kept so that the machine's type and the
+   correspondence cases stay as they were *)
 Definition using_throw (sched has : bool) (e : Z) : (bool * option Z) * list (cmd Z) * fin :=
-  if sched then ((has, Some e), created has ++ [CTimer 0%nat 0], Cont)
-  else ((has, None), created has ++ released has, Fail e).
+  ((has, None), created has ++ released has, Fail e).
 
 Definition x_using (rf : res bool) (obf : res unit) (sched : bool) : machine Z Z :=
   Machine
